@@ -353,3 +353,31 @@ func runByteFamilies(emit func(string)) {
 		}
 	}
 }
+
+// byteSweep: every seed with each of the 256 byte values substituted at, and inserted before, each position
+// (and appended): a change confined to one byte value at one syntactic position — a letter missing from a
+// table, a new two-letter literal prefix, a high-bit twin of a structural byte — meets an input that has it.
+func byteSweep(seeds []string, emit func(string)) {
+	for _, sd := range seeds {
+		for i := 0; i <= len(sd); i++ {
+			for b := 0; b < 256; b++ {
+				c := string([]byte{byte(b)})
+				emit(sd[:i] + c + sd[i:])
+				if i < len(sd) {
+					emit(sd[:i] + c + sd[i+1:])
+				}
+			}
+		}
+	}
+}
+
+var sqlSweepSeeds = []string{"x'41'", "b'01'", "n'a'", "u&'a'", "q'(a)'", "e'a'", "0x1F", "0b01", "1e5", "1.5", "$1.5", "$$a$$", "$t$a$t$", "@a", "@@a", "@`a`",
+	"`a`", "[a]", "/*a*/", "--a", "#a", "a.b", "1 or 1", "1;if(", "a(1)", "user(", "not 1", "a in(", "a like(", "{a 1}", "\\N", "<=>", "||", "&&", ":=", "!=",
+	"1fu", "1du", "a b", "'a'", "\"a\"", "1,2", "(1)", "-1", "~1", "union select", "1 union", "x)=(1", "1),(1", "'a' 'b'", "1 -- a", "sp_password", "X'41'", "x''--", "B'01'", "N'a'", "U&'a'", "Q'(a)'", "E'a'", "0X1F", "0B01", "1E5", "localtime(1)", "1;IF("}
+
+var htmlSweepSeeds = []string{"<a>", "<a b=c>", "<a b='c'>", "<a/b>", "</a>", "<!a>", "<!--a-->", "<?a>", "<%a%>", "<![CDATA[a]]>", "<!doctype>", "a=b", "a b=c",
+	"' a=b", "\" a=b", "` a=b", "<a href=j>", "<a on=1>", "<a onclick=1>", "<a style=1>", "<svg>", "<a xmlns=1>", "x>", "/>", "<a b = c>", "<a b=&#65;>",
+	"<ab c>", "</ab`>", "onclick=1", "x onclick=1>"}
+
+var unitSweepSeeds = []string{"&#65;", "&#x41;", "&#65", "&#x41", "&#065;", "javascript:", "data:", "vbscript:", "view-source:", "onclick", "script", "style", "href", "xmlns",
+	"xlink:href", "svg", "&#106;avascript:", "j&#x61;vascript:", "on", "iframe"}
